@@ -72,17 +72,17 @@ var specs = map[string]spec{
 	},
 	"C16": {
 		World: "e2e", Level: "exploration", QuickS: 40, ThoroughS: 900,
-		Rule: "three quarters of the run indices (part 'deadlines', core engine): cases = timed histories of 2-14 operations from {SetReadDeadline, SetWriteDeadline, SetDeadline (set / renew / clear), Write that empties or does not empty the backlog, peer drain, sleep around the deadline (d-1, d, d+1 us), Close} on one connection in a random engine mode; the scheduler also jumps the clock to the next timer while goroutines are runnable (probability up to 5% per step); reference model of the documented semantics judges each timeout close (deadline of that kind expired and was still in force) and at quiescence each deadline in force that passed; non-trivial = a timeout close happened or a deadline was renewed/cleared within 2us of its expiry. One quarter (part 'keepalive', nbhttp.Engine + websocket.Upgrader on the simulated kernel, I/O modes nonblocking/blocking/mixed, all upgrade paths incl. transfer to the poller): 1-3 client connections follow a timed script on the simulated clock (HTTP requests, upgrade, messages, pings separated by gaps up to half the keep-alive window) and then fall silent; HTTP keep-alive in {20,50,200} ms, websocket keep-alive in {off,10,30,400} ms; oracles: no connection is closed before (instant its last request/message had been sent + the keep-alive time that applies), every silent connection has been closed after three keep-alive times of fair running, and a websocket whose keep-alive is switched off is still open then (the HTTP timer armed at accept must not survive the upgrade)",
+		Rule: "three quarters of the run indices (part 'deadlines', core engine): cases = timed histories of 2-14 operations from {SetReadDeadline, SetWriteDeadline, SetDeadline (set / renew / clear), Write that empties or does not empty the backlog, peer drain, sleep around the deadline (d-1, d, d+1 us), Close} on one connection in a random engine mode; the scheduler also jumps the clock to the next timer while goroutines are runnable (probability up to 5% per step); reference model of the documented semantics judges each timeout close (deadline of that kind expired and was still in force) and at quiescence each deadline in force that passed; non-trivial = a timeout close happened or a deadline was renewed/cleared within 2us of its expiry. One quarter (part 'keepalive', nbhttp.Engine + websocket.Upgrader on the simulated kernel, I/O modes nonblocking/blocking/mixed, all upgrade paths incl. transfer to the poller): 1-3 client connections follow a timed script on the simulated clock (HTTP requests, upgrade, messages, pings separated by gaps up to half the keep-alive window) and then fall silent; HTTP keep-alive in {20,50,200} ms, websocket keep-alive in {off,10,30,400} ms; oracles: no connection is closed before (instant its last request/message had been sent + the keep-alive time that applies), every silent connection has been closed after three keep-alive times of fair running, and a websocket whose keep-alive is switched off is still open then (the HTTP timer armed at accept must not survive the upgrade); 20% of the keep-alive cases run over TLS (reference instant of an unused connection = its connect)",
 		Real: append([]string{"nbhttp.Engine, nbhttp processor/parser, websocket.Upgrader/Conn (transformed real code) in the keepalive part"}, realCore...), Stub: stubKernel,
 		Assumptions: append([]string{"a renewal or clear whose call is invoked at a simulated time >= the deadline is allowed to lose the race; the write deadline is cleared only by a Write call that itself wrote everything to the socket (decided from the system calls the call made under the connection mutex)",
 			"keep-alive: the lower bound is measured from the instant the client had sent its last request or message, which precedes the server's renewal, so it never demands more than the statement; requests that arrive in the last half of the window are not generated (whether a request racing the expiry is served is not specified)"}, assumeKernel...),
 	},
 	"C18": {
 		World: "e2e", Level: "exploration", QuickS: 40, ThoroughS: 900,
-		Rule: "three quarters of the run indices (part 'core', nbio.Engine): cases = 0-4 connections (accepted / added / DialAsync connected / DialAsync never answered) with traffic, backlogs and pending deadlines, then Stop or Shutdown(live ctx) raced with late connects, peer closes, application closes and writes, optionally invoked right after Start; oracle: Stop returns in the fair phase, one close notification per opened connection at return, listener gone, no engine goroutine alive, no simulated descriptor open, no timer armed; non-trivial = some activity overlapped Stop; distinct = context-switch sequence hash. One quarter (part 'http', nbhttp.Engine in I/O modes nonblocking/blocking/mixed): 0-4 client connections in the states idle, answered keep-alive, handler in flight (sleeping), half a request sent, upgraded websocket (poller-driven, blocking with parser, transferred to the poller) with or without traffic; then Stop or Shutdown(context with a one hour timeout) after all clients reached their state or racing them, optionally with one more client connecting meanwhile; oracles: the call returns in the fair phase, every client sees its connection closed, the listener is gone, no engine goroutine, descriptor or timer is left",
+		Rule: "three quarters of the run indices (part 'core', nbio.Engine): cases = 0-4 connections (accepted / added / DialAsync connected / DialAsync never answered) with traffic, backlogs and pending deadlines, then Stop or Shutdown(live ctx) raced with late connects, peer closes, application closes and writes, optionally invoked right after Start; oracle: Stop returns in the fair phase, one close notification per opened connection at return, listener gone, no engine goroutine alive, no simulated descriptor open, no timer armed; non-trivial = some activity overlapped Stop; distinct = context-switch sequence hash. One quarter (part 'http', nbhttp.Engine in I/O modes nonblocking/blocking/mixed): 0-4 client connections in the states idle, answered keep-alive, handler in flight (sleeping), half a request sent, upgraded websocket (poller-driven, blocking with parser, transferred to the poller) with or without traffic; then Stop or Shutdown(context with a one hour timeout) after all clients reached their state or racing them, optionally with one more client connecting meanwhile; 20% of these cases over TLS (a handshake interrupted by the stop counts as a refused connection); oracles: the call returns in the fair phase, every client sees its connection closed, the listener is gone, no engine goroutine, descriptor or timer is left",
 		Real: append([]string{"nbhttp.Engine (listeners, blocking read loops, lmux, Stop/Shutdown), websocket.Upgrader/Conn (transformed real code) in the http part"}, realCore...), Stub: stubKernel,
 		Assumptions: append([]string{"goroutines are attributed to the engine by the function that started them (nbio., taskpool., timer., nbhttp., websocket., lmux.)",
-			"TLS listeners are not explored"}, assumeKernel...),
+			"TLS: llib's implementation is transformed like nbio; the clients use the standard library's crypto/tls"}, assumeKernel...),
 	},
 	"C06": {
 		World: "stream", Level: "fault_enumeration", QuickS: 30, ThoroughS: 600,
